@@ -87,8 +87,6 @@ def run_impl_lines(ctx, driver, lines, nprocs=0, env=None, timeout=900, args=(),
 
 
 def run_model(ctx, casefile, timeout=900):
-    if ctx.ocaml is None:
-        ctx.ocaml = coqtools.build_extracted()
     try:
         p = subprocess.run([ctx.ocaml, casefile], capture_output=True, text=True, timeout=timeout)
     except subprocess.TimeoutExpired:
